@@ -220,6 +220,7 @@ HeaderCases == {[n |-> n, len |-> l, lpos |-> p, ty |-> t, rt |-> r, tf |-> f, w
 HeaderCaseOK(c) == /\ (c.ty = 11 => c.wr = "none" /\ c.n <= 255)
                    /\ (c.n = 1 => c.lpos = "first")
                    /\ (c.n > 255 => c.tf = "1D")
+                   /\ (c.n > MaxElements => c.wr = "none")        \* no writes into a bucket whose creation failed
                    /\ RecLen(c) < Headersize
 
 LongCol(c) == IF c.lpos = "first" THEN 1 ELSE c.n
